@@ -78,6 +78,10 @@ type Machine struct {
 	passerts  []pendingAssert
 	addrBytes map[*Ref]*[8]*Term
 	locked    map[*Obj]bool
+	concModel int
+	pubHist   map[pubKey][]Val
+	frozenObjs []*Obj
+	frozenMaps []*MapObj
 	onceDone  map[*Obj]bool
 	lastArgs  map[string][]Val
 	observed  []string
@@ -233,6 +237,16 @@ func (m *Machine) resetPath() {
 	m.passerts = m.passerts[:0]
 	m.addrBytes = map[*Ref]*[8]*Term{}
 	m.locked = map[*Obj]bool{}
+	m.concModel = 0
+	m.pubHist = map[pubKey][]Val{}
+	for _, o := range m.frozenObjs {
+		o.frozen = false
+	}
+	m.frozenObjs = m.frozenObjs[:0]
+	for _, mo := range m.frozenMaps {
+		mo.frozen = false
+	}
+	m.frozenMaps = m.frozenMaps[:0]
 	m.onceDone = map[*Obj]bool{}
 	m.lastArgs = map[string][]Val{}
 	m.observed = nil
@@ -308,6 +322,9 @@ func (m *Machine) takeSnapshot() {
 
 // touch must be called before any write to o's cells.
 func (m *Machine) touch(o *Obj) {
+	if o.frozen {
+		endPath("MEMSAFETY", "write to object o%d(%s) after it was published through an atomic store (a concurrent reader may be using it)", o.id, o.name)
+	}
 	if o.snap && !o.dirty {
 		o.saved = append([]cell(nil), o.cells...)
 		o.dirty = true
@@ -316,6 +333,9 @@ func (m *Machine) touch(o *Obj) {
 }
 
 func (m *Machine) touchMap(mo *MapObj) {
+	if mo.frozen {
+		endPath("MEMSAFETY", "write to a map after it was published through an atomic store (a concurrent reader may be using it)")
+	}
 	if mo.snap && !mo.dirty {
 		mo.saved = mo.entries
 		mo.entries = append([]MapEntry(nil), mo.entries...)
